@@ -972,11 +972,15 @@ func flushQueue(c *hxlib.Ctx, shard int) {
 		return
 	}
 	buckets := make([][]hxlib.Case, nb)
-	capOf := func(k int) int {
-		if k == 0 {
-			return shard - nCorpus
+	capOf := func(k int) int { // every shard but the last is full
+		n := shard
+		if k == nb-1 {
+			n = total - (nb-1)*shard
 		}
-		return shard
+		if k == 0 {
+			n -= nCorpus
+		}
+		return n
 	}
 	k, dir := 0, 1
 	for _, cs := range queue {
